@@ -1,6 +1,7 @@
 import PraatModel.Proto
 import PraatModel.Crop
 import PraatModel.Ops
+import PraatModel.Query
 
 /-! # line interpreter: one operation per line, one canonical output line -/
 
@@ -109,6 +110,26 @@ def runOp (op : String) : P String := do
   | "find" =>
     let n ← P.nat; let ls ← P.many n P.str; let q ← P.str; let sub ← P.bool
     pure ("ok " ++ Out.join ((findLabels ls q sub).map toString))
+  | "valuesin" =>
+    let t ← P.itier (α := α); let d ← samples
+    pure ("ok " ++ Out.join ((t.valuesInIntervals d).map fun (_, vs) => Out.join (toString vs.length :: vs.map (toString ·.2))))
+  | "valuesat" =>
+    let t ← P.ptier (α := α); let d ← samples; let fz ← P.bool
+    pure (Out.exc (fun rows => Out.join (rows.map fun | none => "_" | some r => toString r.2)) (t.valuesAtPoints d fz))
+  | "overlap" =>
+    let a ← P.iv (α := α); let b ← P.iv; let thr ← P.time; let bi ← P.bool
+    pure ("ok " ++ Out.bool (overlapCheck a b thr bi))
+  | "invert" =>
+    let n ← P.nat; let l ← P.many n (do let x ← P.time (α := α); let y ← P.time (α := α); pure (x, y))
+    let lo ← P.opt P.time; let hi ← P.opt P.time
+    pure (Out.exc (fun r => Out.join (toString r.length :: r.map fun (x, y) => Out.time x ++ " " ++ Out.time y)) (invertIntervalList l lo hi))
+  | "teq" =>
+    let a ← P.anyTier (α := α); let b ← P.anyTier
+    pure ("ok " ++ Out.bool (a.eq b))
+  | "tgeq" =>
+    let a ← P.tg (α := α); let b ← P.tg
+    pure ("ok " ++ Out.bool (a.eq b))
+  | "skip" => pure "ok skip"
   | "tg_add" =>
     let g ← P.tg (α := α); let t ← P.anyTier; let i ← P.opt P.int; let r ← P.report
     pure (Out.exc Out.tg (g.addTier t i r))
@@ -147,6 +168,9 @@ def runOp (op : String) : P String := do
     pure (Out.exc Out.tg (g.alignBoundaries n md))
   | _ => throw s!"unknown op {op}"
 where
+  samples : P (List (α × Nat)) := do
+    let n ← P.nat
+    P.many n (do let x ← P.time (α := α); let i ← P.nat; pure (x, i))
   /-- the reference tier of dejitter: either tier kind, reduced to its timestamps -/
   refTimes : P (List α) := do
     match (← get) with
